@@ -73,7 +73,8 @@ copyreg.pickle(types.MethodType, _pickle_method, _unpickle_method)
 def ignore_aliases(data):
     # scalars must be tested first: len() of a number raises TypeError,
     # which used to skip the scalar test altogether
-    if data is None or isinstance(data, (str, bool, int, float)):
+    if data is None or isinstance(data, (str, bool, int, float, complex,
+                                         np.generic)):
         return True
     try:
         # numpy arrays no longer want to be compared to None, so instead check for a none by looking for if it is an instance of NoneType
